@@ -14,18 +14,20 @@ func TestMain(m *testing.M) { vkit.Main(m, "C17") }
 
 // Case is the replay record of every sub-check.
 type Case struct {
-	Kind   string `json:"kind"` // server-cap | control-cap | tunnel-cap | mapping-cap | code-quota | mapping-quota
-	Limit  int    `json:"limit"`
-	Racers int    `json:"racers,omitempty"`
-	Occ    int    `json:"occupancy,omitempty"`
-	Ops    []int  `json:"ops,omitempty"`    // per racer: number of attempts (server-cap: odd entries also release)
-	Tasks  int    `json:"tasks,omitempty"`  // gate programs
-	Nodes  int    `json:"nodes,omitempty"`  // gate programs: service stacks
-	Picks  []int  `json:"picks,omitempty"`  // gate programs: schedule
-	Rounds int    `json:"rounds,omitempty"` // E3: how often the recorded round parameters are re-run on replay
-	Feed   int    `json:"feed,omitempty"`   // mapping-cap: connections offered
-	Mode   string `json:"mode,omitempty"`   // sequential | concurrent | closer
-	Amp    bool   `json:"amp,omitempty"`    // server-cap: racers meet inside the admission path (GetConnectionID of the transport double)
+	Kind    string   `json:"kind"` // server-cap | control-cap | tunnel-cap | mapping-cap | code-quota | mapping-quota
+	Limit   int      `json:"limit"`
+	Racers  int      `json:"racers,omitempty"`
+	Occ     int      `json:"occupancy,omitempty"`
+	Ops     []int    `json:"ops,omitempty"`     // per racer: number of attempts (server-cap: odd entries also release)
+	Tasks   int      `json:"tasks,omitempty"`   // gate programs
+	Nodes   int      `json:"nodes,omitempty"`   // gate programs: service stacks
+	Picks   []int    `json:"picks,omitempty"`   // gate programs: schedule
+	Rounds  int      `json:"rounds,omitempty"`  // E3: how often the recorded round parameters are re-run on replay
+	Feed    int      `json:"feed,omitempty"`    // mapping-cap: connections offered
+	Mode    string   `json:"mode,omitempty"`    // sequential | concurrent | closer
+	Hist    []string `json:"history,omitempty"` // code-quota-history: C | R<i> | A<i> | L<i> (create, revoke, activate, lapse record of code i)
+	Backend string   `json:"backend,omitempty"` // code-quota-history: memory | hybrid
+	Amp     bool     `json:"amp,omitempty"`     // server-cap: racers meet inside the admission path (GetConnectionID of the transport double)
 }
 
 // contend runs fn(i) on n goroutines released together by a spin barrier and returns
@@ -149,6 +151,8 @@ func TestReplay(t *testing.T) {
 			} else {
 				roundMappingCap(t, c)
 			}
+		case "code-quota-history":
+			runHistory(t, nil, c)
 		case "code-quota", "mapping-quota":
 			p := &vkit.Picks{List: c.Picks}
 			reportQuota(t, c, runQuota(c, p.Choose))
